@@ -141,6 +141,14 @@ func (vm *VirtualMachine) start(ctx context.Context) error {
 	return nil
 }
 
+// currentHalt returns the halt flag of the current run. Clone may be called
+// from any goroutine, also while another goroutine starts a run on this VM.
+func (vm *VirtualMachine) currentHalt() *int32 {
+	vm.runMutex.Lock()
+	defer vm.runMutex.Unlock()
+	return vm.halt
+}
+
 func (vm *VirtualMachine) stop() {
 	vm.runMutex.Lock()
 	defer vm.runMutex.Unlock()
@@ -1158,7 +1166,7 @@ func (vm *VirtualMachine) Clone() (*VirtualMachine, error) {
 		modules:      modules,
 		loadedCode:   loadedCode,
 		concAllowed:  vm.concAllowed,
-		halt:         vm.halt,
+		halt:         vm.currentHalt(),
 	}
 
 	// Only activate main code if it exists
